@@ -90,10 +90,11 @@ structure EmittedC (e : Env K) (pt : Nat → P K) (m : Nat) (o : Out K) : Prop w
   only : ∀ t ∈ o.tris,
     (∃ i, 1 ≤ i ∧ i ≤ m ∧ TriIn o (quadSet (jEP e pt i) (jEP e pt (i + 1))) t)
     ∨ (∃ i, 1 ≤ i ∧ i ≤ m + 1 ∧ TriIn o (joinSet (jEP e pt i)) t)
+    ∨ (∃ i, 1 ≤ i ∧ i ≤ m + 1 ∧ TriFan o (joinSet (jEP e pt i)) (pt i) (e.hwFw * e.hwFw) t)
     ∨ TriIn o (quadSet (jEP e pt (m + 1)) (jEP e pt 1)) t
 
 /-- `close` after the `line_to` loop -/
-theorem close_emitted {e : Env K} (hj : e.o.join ≠ .round) (hw0 : e.hwFw ≠ 0) {pt : Nat → P K} {m : Nat}
+theorem close_emitted {e : Env K} (hj : RoundOK e) (hw0 : e.hwFw ≠ 0) {pt : Nat → P K} {m : Nat}
     (hm : 2 ≤ m) (hp0 : pt (m + 1) = pt 0) (hp1 : pt (m + 1 + 1) = pt 1)
     {st : St K} {a b : EP K} (hI : CInv e pt m st a b)
     (hfar1 : pointsAreTooClose e.thr (pt m) (pt (m + 1)) = false)
@@ -195,10 +196,11 @@ theorem close_emitted {e : Env K} (hj : e.o.join ≠ .round) (hw0 : e.hwFw ≠ 0
     · obtain ⟨ts, ets, hts⟩ := hS.trisNew
       rw [ets] at h
       rcases List.mem_append.mp h with h | h
-      · rcases hI1.only t h with ⟨i, a1, a2, a3⟩ | ⟨i, a1, a2, a3⟩
+      · rcases hI1.only t h with ⟨i, a1, a2, a3⟩ | ⟨i, a1, a2, a3⟩ | ⟨i, a1, a2, a3⟩
         · exact Or.inl ⟨i, a1, by omega, a3.ext hx⟩
         · exact Or.inr (Or.inl ⟨i, a1, by omega, a3.ext hx⟩)
-      · rcases hts t h with ⟨h3, hq⟩ | hq
+        · exact Or.inr (Or.inr (Or.inl ⟨i, a1, by omega, a3.ext hx⟩))
+      · rcases hts t h with ⟨h3, hq⟩ | hq | hq
         · refine Or.inl ⟨m, by omega, le_refl _, ?_⟩
           unfold quadSet
           rw [← geo_sNext_neg ga, ← geo_sNext_pos ga, ← geo_sPrev_pos hgeo1, ← geo_sPrev_neg hgeo1]
@@ -207,7 +209,17 @@ theorem close_emitted {e : Env K} (hj : e.o.join ≠ .round) (hw0 : e.hwFw ≠ 0
           unfold joinSet
           rw [← geo_sPrev_neg hgeo1, ← geo_sNext_neg hgeo1, ← geo_sPrev_pos hgeo1, ← geo_sNext_pos hgeo1]
           exact hq.ext x1
-    · exact Or.inr (Or.inr h)
+        · refine Or.inr (Or.inr (Or.inl ⟨m + 1, by omega, le_refl _, ?_⟩))
+          unfold joinSet
+          rw [← geo_sPrev_neg hgeo1, ← geo_sNext_neg hgeo1, ← geo_sPrev_pos hgeo1, ← geo_sNext_pos hgeo1]
+          have hpj : j1.position = pt (m + 1) := by
+            rw [← hj1]
+            rw [(joinSidesFw_singles e.ix b' _ f1 e.o.miterLimit e.hwFw hI1.t.fresh.ps hI1.t.fresh.ns).2.1]; exact hI1.bpos
+          have hwj : j1.halfWidth = e.hwFw := by
+            rw [← hj1, joinSidesFw_hw]; exact hI1.t.fresh.hw
+          rw [hpj, hwj] at hq
+          exact hq.ext x1
+    · exact Or.inr (Or.inr (Or.inr h))
 
 end
 
@@ -221,15 +233,14 @@ def polyEvsC (pt : Nat → P K) (m : Nat) : List (IdEv K) :=
 /-- **emission shape of the complete model on a closed polygon** (fixed width, non-round join, no merged
 points, no folding join; `pt` continued periodically: `pt (m+1) = pt 0`, `pt (m+2) = pt 1`) -/
 theorem run_emitted_closed (e : Env K) (store : Nat → List K) (hfw : e.o.varWidth = false)
-    (hj : e.o.join ≠ .round) (hw0 : e.hwFw ≠ 0)
+    (hj : RoundOK e) (hw0 : e.hwFw ≠ 0)
     (pt : Nat → P K) (m : Nat) (hm : 2 ≤ m) (hp0 : pt (m + 1) = pt 0) (hp1 : pt (m + 1 + 1) = pt 1)
     (hfar : ∀ i, i ≤ m + 1 → pointsAreTooClose e.thr (pt i) (pt (i + 1)) = false)
     (hnf : ∀ i, 1 ≤ i → i ≤ m + 1 → noFoldAt e (pt (i - 1)) (pt i) (pt (i + 1))) :
     EmittedC e pt m (runEvents e store (polyEvsC pt m)).st.out := by
   obtain ⟨st2, e2, hwf2, hab, hc2, hout⟩ := run_two_points_x e store hfw 0 1 (pt 0) (pt 1) (hfar 0 (by omega))
   have hI1 : CInv e pt 1 st2 (fPt e pt) (secondPt e 0 1 (pt 0) (pt 1)) := by
-    refine ⟨⟨hwf2, hab, ⟨rfl, rfl, rfl, rfl, rfl⟩, rfl, rfl, fun _ => ⟨rfl, rfl⟩, fun h => by omega,
-      by rw [hout, hc2]; rfl⟩, by rw [hout]; rfl, rfl, rfl, le_refl _, by simp [hc2], fun _ => rfl,
+    refine ⟨⟨hwf2, hab, ⟨rfl, rfl, rfl, rfl, rfl⟩, rfl, rfl, fun _ => ⟨rfl, rfl⟩, fun h => by omega⟩, by rw [hout]; rfl, rfl, rfl, le_refl _, by simp [hc2], fun _ => rfl,
       fun h => by omega, fun h => by omega, fun i h1 h2 => by omega, fun i h1 h2 => by omega,
       fun t ht => by rw [hout] at ht; simp [Out.empty] at ht⟩
   obtain ⟨a', b', hI⟩ := feed_cinv hj hw0 (m - 1) 1 st2 _ _ hI1 (fun i h1 h2 => hfar i (by omega))
@@ -249,7 +260,7 @@ theorem run_emitted_closed (e : Env K) (store : Nat → List K) (hfw : e.o.varWi
   rw [r1, step_fixed hfw]
   set st' := (restPts pt 2 (m - 1)).foldl (fun s q => (fwStep e s (linePt e q)).1) st2 with hst'
   have hI' : CInv e pt m { st' with mayNeedEmptyCap := st'.mayNeedEmptyCap || (true && st'.buf.count == 1) } a' b' :=
-    ⟨⟨hI.t.wf, hI.t.two, hI.t.fresh, hI.t.bfp, hI.t.bfn, hI.t.first, hI.t.full, hI.t.euler⟩, hI.next, hI.apos, hI.bpos,
+    ⟨⟨hI.t.wf, hI.t.two, hI.t.fresh, hI.t.bfp, hI.t.bfn, hI.t.first, hI.t.full⟩, hI.next, hI.apos, hI.bpos,
       hI.k1, hI.cnt, hI.first1, hI.first2, hI.ageo, hI.quads, hI.joins, hI.only⟩
   have hcnt : st'.buf.count = 3 := by
     have := hI.cnt; rw [if_neg (by omega)] at this; exact this
